@@ -2,37 +2,15 @@
    Items are integers with the usual order (the harness instantiates kll_sketch<int64_t>, kll_sketch<double>
    fed integer values, and a string type under a reversed comparator through an order isomorphism).
    Every coin the code draws (random_utils::random_bit() in randomly_halve_up/down) is a [Flip] node of the
-   choice monad [M]; the runner replays the coins the implementation reported.
+   choice monad [M] (Choice.v); the runner replays the coins the implementation reported.
 
    levels : list (list Z) — level h is the slice items_[levels_[h] .. levels_[h+1]) in PHYSICAL order
    (level 0 grows downward: an update puts the new item in front). *)
 From Coq Require Import ZArith List Bool Lia.
 From DS Require Import RunnerLib SortedView.
+From DS Require Export Choice.
 Import ListNotations.
 Local Open Scope Z_scope.
-
-(* ---------- choice monad ---------- *)
-Inductive M (A : Type) : Type :=
-| Ret (a : A)
-| Flip (k : bool -> M A).
-Arguments Ret {A}.
-Arguments Flip {A}.
-
-Fixpoint bind {A B} (m : M A) (f : A -> M B) : M B :=
-  match m with
-  | Ret a => f a
-  | Flip k => Flip (fun c => bind (k c) f)
-  end.
-
-(* replay with the coins reported by the implementation (token 0 = false, anything else = true) *)
-Fixpoint replay {A} (m : M A) (cs : list Z) : option (A * list Z) :=
-  match m with
-  | Ret a => Some (a, cs)
-  | Flip k => match cs with
-              | [] => None
-              | c :: r => replay (k (negb (c =? 0))) r
-              end
-  end.
 
 (* ---------- capacities (kll_helper) ---------- *)
 Definition len {A} (l : list A) : Z := Z.of_nat (length l).
@@ -227,20 +205,23 @@ Definition merge (s o : kll) : M kll :=
   Ret (mkkll (kk s3) (if (2 <=? length (levels o))%nat then Z.min (min_k s3) (min_k o) else min_k s3)
              final_n (cap s3) (levels s3) (l0s s3) (mn s3) (mx s3)))).
 
-(* ---------- iterator, AS CODED (kll_sketch::const_iterator) ---------- *)
+(* ---------- iterator (kll_sketch::const_iterator, with the repair fixes/07_kll_iterator.patch) ---------- *)
 (* b i = levels_[i] - levels_[0] *)
 Definition bound (lv : list (list Z)) (i : nat) : Z := retained (firstn i lv).
 
-(* do { ++level; weight *= 2; } while (level < num_levels && levels[level] == levels[level + 1]); *)
-Fixpoint iter_skip (fuel : nat) (lv : list (list Z)) (level : nat) (w : Z) : nat * Z :=
+(* while (level < num_levels && levels[level] == levels[level + 1]) { ++level; weight *= 2; } *)
+Fixpoint iter_while (fuel : nat) (lv : list (list Z)) (level : nat) (w : Z) : nat * Z :=
   match fuel with
   | O => (level, w)
   | S f =>
-      let level' := S level in
-      let w' := 2 * w in
-      if (level' <? length lv)%nat && (bound lv level' =? bound lv (S level')) then iter_skip f lv level' w'
-      else (level', w')
+      if (level <? length lv)%nat && (bound lv level =? bound lv (S level)) then iter_while f lv (S level) (2 * w)
+      else (level, w)
   end.
+
+(* operator++ at the end of a level: do { ++level; weight *= 2; } while (level < num_levels && levels[level] == levels[level + 1]);
+   i.e. one unconditional step, then the while loop *)
+Definition iter_skip (fuel : nat) (lv : list (list Z)) (level : nat) (w : Z) : nat * Z :=
+  iter_while fuel lv (S level) (2 * w).
 
 Fixpoint iter_go (flat : list Z) (lv : list (list Z)) (index : Z) (level : nat) (w : Z) : list (Z * Z) :=
   match flat with
@@ -251,16 +232,18 @@ Fixpoint iter_go (flat : list Z) (lv : list (list Z)) (index : Z) (level : nat) 
       (x, w) :: iter_go r lv index' level' w'
   end.
 
-(* begin(): index = levels_[0], level = 0, weight = 1 *)
-Definition iterate (s : kll) : list (Z * Z) := iter_go (concat (levels s)) (levels s) 0 0%nat 1.
+(* begin(): index = levels_[0], level = 0, weight = 1; the (repaired) constructor then goes to the first non-empty level.
+   The constructor AS CODED before the repair (no loop) is Regression_C07_kll.iterate_as_coded. *)
+Definition iterate (s : kll) : list (Z * Z) :=
+  let '(level, w) := iter_while (S (length (levels s))) (levels s) 0%nat 1 in
+  iter_go (concat (levels s)) (levels s) 0 level w.
 
-(* the iterator with the proposed repair: begin() first skips empty levels *)
+(* what a correct iterator yields: every item of level h with weight 2^h *)
 Fixpoint iter_spec (w : Z) (lv : list (list Z)) : list (Z * Z) :=
   match lv with
   | [] => []
   | l :: r => map (fun x => (x, w)) l ++ iter_spec (2 * w) r
   end.
-Definition iterate_fixed (s : kll) : list (Z * Z) := iter_spec 1 (levels s).
 
 (* ---------- sorted view ---------- *)
 Definition sort_level_zero (s : kll) : kll :=
@@ -308,39 +291,53 @@ Definition lmax (l : list Z) : Z := match l with [] => 0 | x :: r => fold_left Z
 
 Definition with_sk (s : st) (r : Z) (g : reg) (sk : kll) : st := reg_set s r (mkreg (r_kind g) sk (r_log g)).
 
-(* run a monadic operation with the reported coins; all of them must be consumed *)
-Definition run_m {A} (m : M A) (e : line) (s : st) (f : A -> st * outline) : st * outline :=
-  match replay m e with
-  | Some (a, []) => f a
-  | _ => (s, ([-3], []))
+(* the operations of the script *)
+Inductive kop : Type :=
+| ONew (r kind k : Z)            (* 1: new sketch *)
+| OUpd (r v : Z)                 (* 2: update *)
+| ONan (r : Z)                   (* 3: update with NaN (double sketches): ignored *)
+| OMrg (r r2 mode : Z)           (* 4: merge r2 into r; mode 1: rvalue, r2 is dropped *)
+| OObs (r : Z)                   (* 5: observe *)
+| ORank (r x : Z)                (* 6: rank numerators: inclusive, exclusive *)
+| OQuant (r j t : Z)             (* 7: quantiles at rank j / 2^t: inclusive, exclusive *)
+| OCdf (r : Z) (splits : list Z) (* 8: CDF numerators inclusive ++ exclusive *)
+| OCdfNan (r : Z)                (* 9: CDF with a NaN split point (double sketches): refused *)
+| OView (r : Z)                  (* 10: sorted view listing, ties collapsed *)
+| OCopy (r r2 : Z)               (* 13: r := copy of r2 *)
+| OHarness                       (* 97, 98, 99: coin source of the harness *)
+| OBad.
+
+Definition parse (o : line) : kop :=
+  match o with
+  | 1 :: r :: kind :: k :: _ => ONew r kind k
+  | 2 :: r :: v :: _ => OUpd r v
+  | 3 :: r :: _ => ONan r
+  | 4 :: r :: r2 :: mode :: _ => OMrg r r2 mode
+  | 5 :: r :: _ => OObs r
+  | 6 :: r :: x :: _ => ORank r x
+  | 7 :: r :: j :: t :: _ => OQuant r j t
+  | 8 :: r :: splits => OCdf r splits
+  | 9 :: r :: _ => OCdfNan r
+  | 10 :: r :: _ => OView r
+  | 13 :: r :: r2 :: _ => OCopy r r2
+  | 97 :: _ => OHarness
+  | 98 :: _ => OHarness
+  | 99 :: _ => OHarness
+  | _ => OBad
   end.
 
-Definition step (s : st) (o e : line) : st * outline :=
+(* every operation that draws no coin *)
+Definition pstep (s : st) (o : kop) : st * outline :=
   match o with
-  | 1 :: r :: kind :: k :: _ =>                           (* new sketch *)
+  | ONew r kind k =>
       if (8 <=? k) && (k <=? 65535) then (reg_set s r (mkreg kind (kll_new k) []), (ok, []))
       else (s, (refused, []))
-  | 2 :: r :: v :: _ =>                                   (* update *)
-      match reg_get s r with
-      | Some g => run_m (update (r_sk g) v) e s
-                    (fun sk => (reg_set s r (mkreg (r_kind g) sk (v :: r_log g)), (ok, [])))
-      | None => (s, (refused, []))
-      end
-  | 3 :: r :: _ =>                                        (* update with NaN (double sketches): ignored *)
+  | ONan r =>
       match reg_get s r with
       | Some g => (s, (ok, []))
       | None => (s, (refused, []))
       end
-  | 4 :: r :: r2 :: mode :: _ =>                          (* merge r2 into r; mode 1: rvalue, r2 is dropped *)
-      match reg_get s r, reg_get s r2 with
-      | Some g, Some g2 =>
-          if (r =? r2) || negb (r_kind g =? r_kind g2) then (s, (refused, [])) else
-          run_m (merge (r_sk g) (r_sk g2)) e s
-            (fun sk => let s' := reg_set s r (mkreg (r_kind g) sk (r_log g2 ++ r_log g)) in
-                       ((if mode =? 1 then reg_del s' r2 else s'), (ok, [])))
-      | _, _ => (s, (refused, []))
-      end
-  | 5 :: r :: _ =>                                        (* observe *)
+  | OObs r =>
       match reg_get s r with
       | Some g =>
           let sk := r_sk g in
@@ -352,7 +349,7 @@ Definition step (s : st) (o e : line) : st * outline :=
                 total_capacity (kk sk) (length (levels sk))]))
       | None => (s, (refused, []))
       end
-  | 6 :: r :: x :: _ =>                                   (* rank numerators: inclusive, exclusive *)
+  | ORank r x =>
       match reg_get s r with
       | Some g =>
           if nn (r_sk g) =? 0 then (s, (refused, [])) else
@@ -363,7 +360,7 @@ Definition step (s : st) (o e : line) : st * outline :=
             [count_if (fun y => y <=? x) (r_log g); count_if (fun y => y <? x) (r_log g); len (r_log g)]))
       | None => (s, (refused, []))
       end
-  | 7 :: r :: j :: t :: _ =>                              (* quantiles at rank j / 2^t: inclusive, exclusive *)
+  | OQuant r j t =>
       match reg_get s r with
       | Some g =>
           if (nn (r_sk g) =? 0) || (j <? 0) || (2 ^ t <? j) then (s, (refused, [])) else
@@ -383,7 +380,7 @@ Definition step (s : st) (o e : line) : st * outline :=
           end
       | None => (s, (refused, []))
       end
-  | 8 :: r :: splits =>                                   (* CDF numerators inclusive ++ exclusive *)
+  | OCdf r splits =>
       match reg_get s r with
       | Some g =>
           if nn (r_sk g) =? 0 then (s, (refused, [])) else
@@ -395,14 +392,14 @@ Definition step (s : st) (o e : line) : st * outline :=
           end
       | None => (s, (refused, []))
       end
-  | 9 :: r :: _ =>                                        (* CDF with a NaN split point (double sketches): refused *)
+  | OCdfNan r =>
       match reg_get s r with
       | Some g =>
           if nn (r_sk g) =? 0 then (s, (refused, [])) else
           (with_sk s r g (sort_level_zero (r_sk g)), (refused, []))
       | None => (s, (refused, []))
       end
-  | 10 :: r :: _ =>                                       (* sorted view listing, ties collapsed *)
+  | OView r =>
       match reg_get s r with
       | Some g =>
           let sk := sort_level_zero (r_sk g) in
@@ -410,15 +407,52 @@ Definition step (s : st) (o e : line) : st * outline :=
           (with_sk s r g sk, (v_total v :: flat_pairs (groups Z Z.ltb (v_entries v)), []))
       | None => (s, (refused, []))
       end
-  | 13 :: r :: r2 :: _ =>                                 (* r := copy of r2 *)
+  | OCopy r r2 =>
       match reg_get s r2 with
       | Some g2 => (reg_set s r g2, (ok, []))
       | None => (s, (refused, []))
       end
-  | 97 :: _ => (s, (ok, []))                              (* harness: report leftover scripted coins (F only) *)
-  | 98 :: _ => (s, (ok, []))                              (* harness: scripted coins *)
-  | 99 :: _ => (s, (ok, []))                              (* harness: reseed the coin source *)
+  | OHarness => (s, (ok, []))
   | _ => (s, ([-2], []))
   end.
 
+(* one operation as a tree over the coins it draws (update and merge; everything else is a leaf) *)
+Definition mstep_op (s : st) (o : kop) : M (st * outline) :=
+  match o with
+  | OUpd r v =>
+      match reg_get s r with
+      | Some g => bind (update (r_sk g) v)
+                    (fun sk => Ret (reg_set s r (mkreg (r_kind g) sk (v :: r_log g)), (ok, [])))
+      | None => Ret (s, (refused, []))
+      end
+  | OMrg r r2 mode =>
+      match reg_get s r, reg_get s r2 with
+      | Some g, Some g2 =>
+          if (r =? r2) || negb (r_kind g =? r_kind g2) then Ret (s, (refused, [])) else
+          bind (merge (r_sk g) (r_sk g2))
+            (fun sk => let s' := reg_set s r (mkreg (r_kind g) sk (r_log g2 ++ r_log g)) in
+                       Ret ((if mode =? 1 then reg_del s' r2 else s'), (ok, [])))
+      | _, _ => Ret (s, (refused, []))
+      end
+  | _ => Ret (pstep s o)
+  end.
+
+Definition mstep (s : st) (o : line) : M (st * outline) := mstep_op s (parse o).
+
+(* the runner replays the coins the implementation reported for this operation; all of them must be consumed *)
+Definition step (s : st) (o e : line) : st * outline :=
+  match replay (mstep s o) e with
+  | Some (r, []) => r
+  | _ => (s, ([-3], []))
+  end.
+
 Definition run (ops : list opline) : list outline := run_case step [] ops.
+
+(* a whole script as ONE tree over all the coins it draws (the register file after the last operation at the leaves) *)
+Definition mstep_st (s : st) (o : line) : M st := bind (mstep s o) (fun so => Ret (fst so)).
+Fixpoint mrun_from (m : M st) (ops : list line) : M st :=
+  match ops with
+  | [] => m
+  | o :: r => mrun_from (bind m (fun s => mstep_st s o)) r
+  end.
+Definition mrun (ops : list line) : M st := mrun_from (Ret []) ops.
